@@ -93,7 +93,7 @@ def gen_env(rng, idx, n_envs):
         "umask": rng.choice([0o022, 0o077, 0o002]),
         "noise": {f"NOISE_{rng.randrange(1000)}": str(rng.random()) for _ in range(rng.randint(0, 3))},
         "clock": float(rng.choice([946684800, 1600000000, 1893456000, 2000000001]) + rng.randrange(86400)),
-        "reuse": rng.choice([None, None, "A,B,A", "B,A", "cd:B,A"]),  # process reuse pattern (cd: both by RELATIVE option paths)
+        "reuse": rng.choice([None, None, "A,B,A", "B,A", "cd:B,A", "F,A"]),  # process reuse pattern (cd: both by RELATIVE option paths)
     }
 
 
@@ -420,6 +420,25 @@ def main(argv):
             er = R.stream(seed, "c10", "env", i)
             envs = [gen_env(er, j, nenv) for j in range(nenv)]
             for env in envs:
+                if env["reuse"] == "F,A":
+                    # fault: an earlier generation of (nearly) the same request FAILED in this interpreter - its method
+                    # settings name a method that does not exist - and may have left half-built state behind
+                    if ("fail", i) not in twins:
+                        import copy
+                        fb = os.path.join(root, f"r{i}fail")
+                        os.makedirs(fb)
+                        bad = copy.deepcopy(spec)
+                        y = bad.setdefault("service_yaml", {"type": "google.api.Service", "config_version": 3, "name": "x.example.com"})
+                        y.setdefault("publishing", {})["method_settings"] = [{"selector": bad["package"] + ".NoSuchService.NoSuchMethod",
+                                                                              "auto_populated_fields": ["request_id"]}]
+                        try:
+                            materialise(bad, fb)
+                            twins[("fail", i)] = fb
+                        except Exception:  # noqa
+                            twins[("fail", i)] = None
+                    env["other_base"] = twins[("fail", i)] or bases[(i + 1) % len(bases)]
+                    stats["failed_generation_first_runs"] = stats.get("failed_generation_first_runs", 0) + (1 if twins[("fail", i)] else 0)
+                    continue
                 if env["reuse"]:
                     env["other_base"] = bases[(i + 1) % len(bases)]
                     # half of the reuse patterns pair the request with ITSELF AFTER AN EDIT OF ITS OPTION FILES (a build
@@ -540,7 +559,7 @@ def main(argv):
                   "process_reuse_runs": stats["reuse_runs"], "stdin_runs": stats["stdin_runs"],
                   "build_worker_generations": stats.get("worker_generations", 0),
                   "relative_option_path_runs": stats["relative_option_paths"], "distinct_clock_instants": len(stats["clock_instants"]),
-                  "faults_fired": {"hash_seed_change": stats["processes"], "process_reuse": stats["reuse_runs"], "process_reuse_same_api_edited_options": stats.get("twin_reuse_runs", 0),
+                  "faults_fired": {"hash_seed_change": stats["processes"], "process_reuse": stats["reuse_runs"], "process_reuse_same_api_edited_options": stats.get("twin_reuse_runs", 0), "process_reuse_after_failed_generation": stats.get("failed_generation_first_runs", 0),
                                    "cwd_change": stats["processes"], "env_noise": stats["processes"], "fake_wall_clock": stats["processes"]},
                   "processes_per_hour": int(stats["processes"] / wall * 3600) if wall else 0,
                   "components_real": ["gapic.cli.generate.generate (real CLI entry point), whole generator, both option files, in separate interpreter processes"],
